@@ -3,7 +3,10 @@
 (* (python lists / tuples holding the operands by identity), one action per public call in every *)
 (* calling form (operand x operand, list alone, list x operand, operand x list, list x list, the  *)
 (* same list on both sides, a list holding one object twice), and the caller's own actions on     *)
-(* its objects between calls (append / pop / overwrite a cell).                                  *)
+(* its objects between calls (append / pop / overwrite a cell; in-place edits that keep the       *)
+(* identity and the shape of an operand: re-dating, renaming / re-ordering columns, overwriting    *)
+(* several cells - followed by the same call, another operator, the other policy on the SAME       *)
+(* objects: whatever a call remembered about them is stale).                                      *)
 (* The calls are executed by the MECHANISM of OpsSession.tla on the CURRENT heap; the invariants  *)
 (* say what the statement says: a call changes nothing on the heap, and every result is what the *)
 (* LAW gives for the contents the caller holds at the time of the call, whatever was called      *)
@@ -17,7 +20,11 @@ EXTENDS OpsSession, TLC, Json
 CONSTANTS MaxSteps,     \* length of the histories
           FreeSteps,    \* the first FreeSteps steps are arbitrary calls, the later ones "probes" of what the earlier ones touched
           Scope,        \* "quick" | "thorough" | "wide": which heaps
-          Caller,       \* TRUE: the caller changes its own objects between calls
+          Caller,       \* TRUE: the caller changes its own objects between calls (append / pop / overwrite a cell)
+          Edits,        \* TRUE: the caller edits an operand in place keeping its identity and shape (OpsSession!ShapeKeeping)
+          Pairs,        \* "no": a call on two different objects needs a container (the plain pair is MC_Ops');
+                        \* "also": such calls too, with pow_ and the comparisons, and probes that change operator / policy / fill method;
+                        \* "only": nothing but calls on two objects
           Extend        \* mechanism variant, see OpsSession.tla
 
 VARIABLES env,    \* [cols, fam, join]: value family and the policies of the session
@@ -59,15 +66,17 @@ HeapSet(f) == CASE Scope = "quick"    -> {HSeries(f), HFrames(f)}
                 [] Scope = "series"   -> {HSeries(f), HDups(f)}
 HasMultiHeap(h) == \E i \in 1..Len(h.objs) : IsMulti(h.objs[i])
 Fams == {"arith", "agg"}
-SessOps(f) == IF f = "arith" THEN {"add", "sub", "mul", "div", "min", "max", "sum", "count"}
-              ELSE {"add", "sub", "mul", "min", "max", "sum", "mean", "count"}
+SessOps(f) == (IF f = "arith" THEN {"add", "sub", "mul", "div", "min", "max", "sum", "count"}
+               ELSE {"add", "sub", "mul", "min", "max", "sum", "mean", "count"})
+              \cup (IF Pairs = "no" THEN {} ELSE IF f = "arith" THEN PairOps ELSE OpsCmp)
 
 \* ---- the machine -------------------------------------------------------------------------------
 \* (records are written with their fields in alphabetical order, the order in which TLC keeps them)
-NoCall == [a |-> NoRef, b |-> NoRef, cols |-> "ij", join |-> "ij", op |-> ""]
-MkCall(op, a, b) == [a |-> a, b |-> b, cols |-> env.cols, join |-> IF op \in AggOps THEN "oj" ELSE env.join, op |-> op]
-CallStep(c) == [act |-> "call", c |-> c, l |-> 0, o |-> 0]
-CallerStep(act, l, o) == [act |-> act, c |-> NoCall, l |-> l, o |-> o]
+NoCall == [a |-> NoRef, b |-> NoRef, cols |-> "ij", join |-> "ij", m |-> "none", op |-> ""]
+MkCall(op, a, b) == [a |-> a, b |-> b, cols |-> env.cols, join |-> IF op \in AggOps THEN "oj" ELSE env.join, m |-> "none", op |-> op]
+CallStep(c) == [act |-> "call", c |-> c, l |-> 0, o |-> 0, p |-> <<>>, x |-> 0]
+CallerStep(act, l, o) == [act |-> act, c |-> NoCall, l |-> l, o |-> o, p |-> <<>>, x |-> 0]
+EditStep(act, o, x, p) == [act |-> act, c |-> NoCall, l |-> 0, o |-> o, p |-> p, x |-> x]
 Refs(h) == {ORef(i) : i \in 1..Len(h.objs)} \cup {LRef(i) : i \in 1..Len(h.lists)}
 Called == last.c.op # ""
 
@@ -75,8 +84,17 @@ ListsOfCall(c) == (IF c.a.r = "l" THEN {c.a.i} ELSE {}) \cup (IF c.b.r = "l" THE
 UsedLists == UNION {ListsOfCall(hist[k].s.c) : k \in 1..Len(hist)}
 UsedObjs  == UNION {Range(ArgIds(hist[k].h, hist[k].s.c)) : k \in {k \in 1..Len(hist) : hist[k].s.act = "call"}}
 \* a probe looks again at what an earlier call was given: the same call once more, or a list of an earlier call on its own
+\* ... or (Pairs) the same arguments under another operator, the other index policy, the other column policy, a fill method:
+\* whatever an earlier call may have remembered per policy / per operator about these very objects must not be seen
+Ring == [add |-> {"sub", "ge"}, sub |-> {"mul", "lt"}, mul |-> {"div", "min"}, div |-> {"add", "le"}, pow |-> {"mul", "gt"},
+         gt |-> {"ge", "add"}, ge |-> {"lt", "div"}, lt |-> {"le", "max"}, le |-> {"gt", "sub"}, min |-> {"max", "add"}, max |-> {"min", "mul"},
+         sum |-> {"mean", "count"}, mean |-> {"count", "sum"}, count |-> {"sum", "mean"}]
+Other(pol) == IF pol = "ij" THEN "oj" ELSE "ij"
+Variants(c) == {[c EXCEPT !.op = op2] : op2 \in Ring[c.op] \cap SessOps(env.fam)}
+               \cup {[c EXCEPT !.join = Other(c.join)], [c EXCEPT !.cols = Other(c.cols)], [c EXCEPT !.m = "v0"], [c EXCEPT !.m = "ffill"]}
 Probe(c) == \/ c = last.c
             \/ c.b = NoRef /\ c.a.r = "l" /\ c.a.i \in UsedLists /\ c.op \in {last.c.op, "add"}
+            \/ Pairs # "no" /\ c \in Variants(last.c)
 
 Init == /\ env \in [cols : {"ij", "oj"}, fam : Fams, join : {"ij", "oj"}]
         /\ law \in HeapSet(env.fam)
@@ -86,17 +104,18 @@ Init == /\ env \in [cols : {"ij", "oj"}, fam : Fams, join : {"ij", "oj"}]
 
 DoCall(c) == /\ Len(hist) < MaxSteps
              /\ c.op \in AggOps => env.join = "oj"            \* the aggregates have no index policy: once per session family
-             /\ (c.a.r = "o" /\ c.b.r = "o") => c.a.i = c.b.i     \* two different objects, no container: the plain pair of MC_Ops
+             /\ (Pairs = "no" /\ c.a.r = "o" /\ c.b.r = "o") => c.a.i = c.b.i     \* two different objects, no container: the plain pair of MC_Ops
+             /\ Pairs = "only" => c.a.r = "o" /\ c.b.r = "o"
              /\ (Len(hist) >= FreeSteps => (Called /\ Probe(c))) = TRUE     \* (= TRUE: a condition, not a choice of successors)
              /\ SessDomain(law, c) = TRUE
              /\ LET m == MechCall(heap, c, Extend) IN heap' = m.heap /\ last' = [c |-> c, out |-> m.out]
              /\ at' = law
              /\ hist' = Append(hist, [h |-> law, s |-> CallStep(c)])
              /\ UNCHANGED <<env, law>>
-DoCaller(s) == /\ Caller /\ Called /\ Len(hist) < MaxSteps - 1       \* a call follows
+DoCaller(s) == /\ (IF s.act \in {"append", "pop", "poke"} THEN Caller ELSE Edits) /\ Called /\ Len(hist) < MaxSteps - 1       \* a call follows
                /\ hist[Len(hist)].s.act = "call"
                /\ (CanDo(law, s) /\ CanDo(heap, s)) = TRUE
-               /\ ((s.l # 0 => s.l \in UsedLists) /\ (s.act = "poke" => s.o \in UsedObjs)) = TRUE
+               /\ ((s.l # 0 => s.l \in UsedLists) /\ (s.act # "append" /\ s.o # 0 => s.o \in UsedObjs)) = TRUE
                /\ law' = Apply(law, s) /\ heap' = Apply(heap, s)
                /\ hist' = Append(hist, [h |-> law', s |-> s])
                /\ UNCHANGED <<env, last, at>>
@@ -107,7 +126,17 @@ CallAgg  == \E op \in AggOps \cap SessOps(env.fam), a \in Refs(law), b \in Refs(
 CallerAppend == \E l \in 1..Len(law.lists), o \in 1..Len(law.objs) : DoCaller(CallerStep("append", l, o))
 CallerPop    == \E l \in 1..Len(law.lists) : DoCaller(CallerStep("pop", l, 0))
 CallerPoke   == \E o \in 1..Len(law.objs) : DoCaller(CallerStep("poke", 0, o))
-Next == CallFold \/ CallCut \/ CallAgg \/ CallerAppend \/ CallerPop \/ CallerPoke
+\* calls on two objects with the operators that take exactly two operands; the last call's arguments under another operator / policy / method
+CallPair     == Pairs # "no" /\ \E op \in PairOps \cap SessOps(env.fam), a \in Refs(law), b \in Refs(law) : DoCall(MkCall(op, a, b))
+CallVariant  == Pairs # "no" /\ Called /\ \E c \in Variants(last.c) : DoCall(c)
+\* the caller's in-place edits that keep identity and shape
+CallerShift   == \E o \in 1..Len(law.objs), d \in {-1, 1} : DoCaller(EditStep("shift", o, d, <<>>))
+CallerRestamp == \E o \in 1..Len(law.objs), i \in 1..3 : DoCaller(EditStep("restamp", o, i, <<>>))
+CallerRename  == \E o \in 1..Len(law.objs), c1 \in {"a", "b", "c"}, c2 \in {"c", "e"} : DoCaller(EditStep("rename", o, 0, <<c1, c2>>))
+CallerReorder == \E o \in 1..Len(law.objs) : DoCaller(EditStep("reorder", o, 0, <<>>))
+CallerPokes   == \E o \in 1..Len(law.objs), x \in {0, 1} : DoCaller(EditStep("pokes", o, x, <<>>))
+CallerEdits   == CallerShift \/ CallerRestamp \/ CallerRename \/ CallerReorder \/ CallerPokes
+Next == CallFold \/ CallCut \/ CallAgg \/ CallPair \/ CallVariant \/ CallerAppend \/ CallerPop \/ CallerPoke \/ CallerEdits
 
 \* ---- what the statement says, clause by clause -----------------------------------------------
 \* a call changes nothing the caller owns: no container gains, loses or swaps a member, no operand changes a cell
